@@ -176,6 +176,24 @@ def check_nlp(spec, parts=("dynamics", "placement", "frame", "objective"), inst=
         c.fail("%s|%s.add_constraints:raises:%s" % (inst, MOD[spec.method], reject), "specification silently transcribed; the method cannot represent it and must reject it")
         return None
     opti = spec.opti
+    if spec.method != "DC" and spec.intg not in ("rk", "expl_euler"):
+        if "init" not in parts:
+            return None
+        # builtin integrators are opaque step maps (A-INTG): only the starting values are specified here
+        from .oracle import expected_initial
+        start = list(opti.initial())
+        have = {str(x) for eq in start for x in ca.MX(eq.dep(1)).e}
+        start += [eq for eq in opti.value_parameters() if not ({str(x) for x in ca.MX(eq.dep(1)).e} & have)]
+        for tag, handle, exp in expected_initial(spec, meth, spec.initial_realised):
+            name = "%s|sampling_method:SamplingMethod.set_initial:ensures:start[%s]" % (inst, "/".join(str(t) for t in tag))
+            try:
+                got = opti.value(handle, start)
+            except RuntimeError as e:
+                c.fail(name, "starting value cannot be read back: %s" % e)
+                continue
+            want = ca.MX(exp)
+            nlp.prove_equal(name, got, opti.value(want, start) if want.has_symbols() else want)
+        return None
     if "dynamics" in parts:
         handles_distinct(spec, meth, inst)
     orc = Oracle(spec, meth).expected()
